@@ -113,10 +113,15 @@ def do_call(spec, det, obj, first, seed):
     return det.update(obj)
 
 
-def make_obj(spec, item, cont, naming="named"):
+def make_obj(spec, item, cont, naming="named", index_mode="default"):
     if spec.kind == "y":
         return (present_y(item[0], cont[0]), present_y(item[1], cont[1]))
-    return present_x(spec, item, cont, names=("default" if naming == "default" else None))
+    obj = present_x(spec, item, cont, names=("default" if naming == "default" else None))
+    if isinstance(obj, (pd.DataFrame, pd.Series)) and index_mode != "default":
+        n = len(obj)
+        # the row labels of a DataFrame / Series carry no meaning for a detector: non-default, descending or repeated labels
+        obj.index = {"offset": [100 + 3 * i for i in range(n)], "reversed": list(range(n, 0, -1)), "repeated": [7] * n}[index_mode]
+    return obj
 
 
 def build_fault(spec, case, ncols):
@@ -172,7 +177,7 @@ def run(spec, case, containers, fault_pos=None, ctx=None):
             if outcome != "ValueError":
                 return trace, outcome
         if i < len(items):
-            obj = make_obj(spec, items[i], containers[i], case.get("df_naming", "named"))
+            obj = make_obj(spec, items[i], containers[i], case.get("df_naming", "named"), case.get("df_index", "default"))
             if name == "NNDVI" and i > 0 and not cat.nndvi_domain_ok(det, np.array(items[i], dtype=float)):
                 return trace, outcome if outcome else "truncated"
             try:
@@ -290,6 +295,8 @@ def check_fault(case, ctx):
     ctx.label(name, "fault:" + f["kind"], f"{name}:{f['kind']}")
     if any(isinstance(c, str) and c.endswith("_int") for c in containers):
         ctx.label("integer-dtype-container")
+    if case.get("df_index", "default") != "default" and any(isinstance(c, str) and (c.startswith("df") or c.startswith("series")) for c in containers):
+        ctx.label("non-default-row-index")
     if f["pos"] == 0:
         ctx.label("fault-at-0")
     if 0 < f["pos"] < len(items) and f["pos"] >= 2 and containers[f["pos"] - 1] != containers[f["pos"] - 2]:
@@ -346,6 +353,7 @@ def strat_fault(names):
             out = {"det": name, "params": p, "ncols": ncols, "items": items, "containers": containers, "fault": fault, "seed_base": draw(vs.seed_base)}
             if spec.kind != "y":
                 out["df_naming"] = draw(st.sampled_from(["named", "named", "default"]))
+                out["df_index"] = draw(st.sampled_from(["default", "default", "offset", "reversed", "repeated"]))
                 if name != "PCACD" and draw(st.integers(0, 2)) == 0:
                     # the first few items hold integral values and arrive as integers (python ints / integer dtype),
                     # later ones are fractional floats
@@ -445,7 +453,7 @@ PROPERTY = {
     "rule": (
         "For each of the 14 Streaming/Batch detectors: a short valid history (3-30 calls, batch detectors start with set_reference) whose "
         "items are presented in drawn containers (scalar / list / 1-D / 2-D ndarray / Series / DataFrame as far as the shape allows, in runs "
-        "with switches; a quarter of the histories hold integral values and may also be presented with integer dtypes / python ints) and ONE malformed call injected at a drawn position 0..len: wrong row count, wrong column count (+1/-1, as ndarray, "
+        "with switches; DataFrames / Series may carry non-default, descending or repeated row labels; a quarter of the histories hold integral values and may also be presented with integer dtypes / python ints) and ONE malformed call injected at a drawn position 0..len: wrong row count, wrong column count (+1/-1, as ndarray, "
         "list or DataFrame), renamed DataFrame columns (other explicit names, or pandas' default labels vs. explicit names), wrong rows combined with another width / other names, multi-column data to a "
         "univariate detector, y with two observations. Oracles: (i) the malformed call raises ValueError (inputs that are legal because "
         "nothing is established yet must be accepted); (ii) the observations after every accepted call equal those of the run without the "
